@@ -518,6 +518,13 @@ class EngineRun:
                 # the library's own done-callback (finish_stream of that id) was registered first and runs just before this one
                 fut.add_done_callback(lambda _f, _sid=fsid: self.mark('FNFD:%d' % _sid))
                 self.oneway.append(('fnf', len(self.glog), fut))
+            elif op == 'OWC':
+                # the application gives up waiting for a one-way request (asyncio.wait_for timing out on a slow link): it cancels the
+                # awaitable fire_and_forget() / metadata_push() returned; no entry point of its own (a done-callback may follow)
+                for k, at, f in reversed(self.oneway):
+                    if not f.done():
+                        f.cancel()
+                        break
             elif op == 'MP':
                 self.mark('MP:%s' % tstr(s['data']))
                 self.oneway.append(('mp', len(self.glog), ep.metadata_push(tags_to_bytes(s['data']))))
